@@ -29,6 +29,13 @@ class Array(Term):
         return format_alias_sql(sql, self.alias)
 
 
+def _array_sql(array, with_namespace, quote_char, dialect) -> str:
+    # a column is rendered like everywhere else (quoted, qualified in multi-table queries); an Array literal has no options
+    if isinstance(array, Field):
+        return array.get_sql(with_namespace=with_namespace, quote_char=quote_char or '"', dialect=dialect)
+    return array.get_sql()
+
+
 class HasAny(Function):
     def __init__(
         self,
@@ -45,12 +52,10 @@ class HasAny(Function):
         self.name = "hasAny"
 
     def get_sql(self, with_alias=False, with_namespace=False, quote_char=None, dialect=None, **kwargs):
-        left = self._left_array.get_sql()
-        right = self._right_array.get_sql()
         sql = "{name}({left},{right})".format(
             name=self.name,
-            left='"%s"' % left if isinstance(self._left_array, Field) else left,
-            right='"%s"' % right if isinstance(self._right_array, Field) else right,
+            left=_array_sql(self._left_array, with_namespace, quote_char, dialect),
+            right=_array_sql(self._right_array, with_namespace, quote_char, dialect),
         )
         return format_alias_sql(sql, self.alias, **kwargs)
 
@@ -63,10 +68,9 @@ class _AbstractArrayFunction(Function, metaclass=abc.ABCMeta):
         self._array = array
 
     def get_sql(self, with_namespace=False, quote_char=None, dialect=None, **kwargs):
-        array = self._array.get_sql()
         sql = "{name}({array})".format(
             name=self.name,
-            array='"%s"' % array if isinstance(self._array, Field) else array,
+            array=_array_sql(self._array, with_namespace, quote_char, dialect),
         )
         return format_alias_sql(sql, self.alias, **kwargs)
 
